@@ -688,12 +688,20 @@ def enumerate_as(ctx, tdir, scs, user, th, model_steps, classes, stats):
                 win = window_of(tr, k)
                 mine = canon_trace(res.get("victim_trace", []), res["canon"])
                 if [role_of(x) for x in mine[:k - 1]] != [role_of(x) for x in tr[:k - 1]]:
-                    stats["prefix_mismatch"] += 1
+                    stats["prefix_mismatch"] += 1      # directory listings are not in a reproducible order
+                if mine and mine[-1].endswith(" killed"):
+                    tr = mine                          # the call the process really died at, and its real prefix
+                    at = mine[-1]
+                    win = window_of(mine, len(mine))
             else:
                 per["cleaner_points"] += 1
                 tr = inf["cctrace"]
                 at = tr[ck - 1]
                 win = "cleaner"
+                mine = canon_trace(res.get("cleaner_trace", []), res["canon"])
+                if mine and mine[-1].endswith(" killed"):
+                    tr = mine
+                    at = mine[-1]
             stats["roles"].add(role_of(at))
             bad = judge(res, inf["ref"])
             if bad:
@@ -713,7 +721,7 @@ def enumerate_as(ctx, tdir, scs, user, th, model_steps, classes, stats):
                                       "scenario": nme, "crash_index": idx, "kill_after": ka or cka, "process": "victim" if ck is None else "cleaner",
                                       "run_as_user": uname, "call_at_crash_point": at, "api_window": win, "symptom": sym, "detail": detail,
                                       "all_symptoms_of_this_case": [b[0] for b in bad],
-                                      "trace_prefix": tr[max(0, idx - 25):idx], "survivor_after": res["phases"].get("after"),
+                                      "trace_prefix": (tr[max(0, idx - 25):idx] if tr is not mine else mine[-25:]), "survivor_after": res["phases"].get("after"),
                                       "survivor_probe": res["phases"].get("probe"), "how_to_rerun": replay_cmd(res)}
     stats["nfail"] += nfail
     stats["selected"] += len(jobs)
